@@ -796,7 +796,13 @@ func (c *GroupCoordinator) parseSubscriptionTopics(protocols []kmsg.JoinGroupReq
 	}
 	topicCount := binary.BigEndian.Uint32(data[read : read+4])
 	read += 4
-	topics := make([]string, 0, topicCount)
+	// topicCount is client-controlled: size the slice by what the data can hold
+	// (every topic needs at least its 2-byte length), not by the declared count.
+	capHint := len(data) / 2
+	if uint64(topicCount) < uint64(capHint) {
+		capHint = int(topicCount)
+	}
+	topics := make([]string, 0, capHint)
 	for i := uint32(0); i < topicCount && read+2 <= len(data); i++ {
 		nameLen := binary.BigEndian.Uint16(data[read : read+2])
 		read += 2
